@@ -202,7 +202,8 @@ class Analyzer:
                 continue
             if isinstance(st, ast.Raise):
                 if st.exc is None or (isinstance(st.exc, ast.Name) and st.exc.id == bound):
-                    out += list(caught or [])
+                    # re-raised: the origin keeps its own guards and gains those of the handler around the `raise`
+                    out += [(c, t, tuple(g) + tuple(x for x in guards if x not in g)) for c, t, g in (caught or [])]
                 elif isinstance(st.exc, ast.Name) and st.exc.id in self.assigned_exc:
                     out.append((self.assigned_exc[st.exc.id], "raise " + st.exc.id, guards))
                 else:
@@ -305,14 +306,11 @@ def _selftest(ex, problems):
 
 def _registered(ex, problems):
     """live registered types: handler -> (deserializer, its own deserializer_exceptions)"""
-    import datetime  # noqa: F401 - the pending registrations are keyed by import path
-    import decimal
-    import uuid
-
     from jsonargparse import typing as jt
 
-    for cls in (decimal.Decimal, uuid.UUID, datetime.timedelta, bytes, bytearray):
-        jt.get_registered_type(cls)
+    from .excflow import force_pending_registrations
+
+    force_pending_registrations()
     out = {}
     for k, h in jt.registered_type_handlers.items():
         tup = h.deserializer_exceptions
